@@ -162,7 +162,8 @@ type proxy struct {
 	network  string
 	backend  string
 	mu       sync.Mutex
-	mode     string // pass | refuse
+	mode     string // pass | refuse | hold (accepted connections are parked until the mode changes)
+	held     []net.Conn
 	conns    map[net.Conn]struct{}
 	accepted int
 	refused  int
@@ -196,6 +197,11 @@ func (p *proxy) run() {
 		}
 		p.accepted++
 		p.conns[c] = struct{}{}
+		if p.mode == "hold" {
+			p.held = append(p.held, c)
+			p.mu.Unlock()
+			continue
+		}
 		p.mu.Unlock()
 		go p.serve(c)
 	}
@@ -247,6 +253,7 @@ func (p *proxy) cut() int {
 		_ = c.Close()
 		delete(p.conns, c)
 	}
+	p.held = nil
 	p.mu.Unlock()
 	return n
 }
@@ -254,7 +261,21 @@ func (p *proxy) cut() int {
 func (p *proxy) setMode(m string) {
 	p.mu.Lock()
 	p.mode = m
+	held := p.held
+	if m != "hold" {
+		p.held = nil
+	}
 	p.mu.Unlock()
+	if m == "hold" {
+		return
+	}
+	for _, c := range held {
+		if m == "pass" {
+			go p.serve(c) // serve() notices a connection that was cut in the meantime
+		} else {
+			p.drop(c)
+		}
+	}
 }
 
 func (p *proxy) close() {
